@@ -113,6 +113,25 @@ def shape_min(S):
     return S.minsize()
 
 
+def flat_normals(X):
+    if X.kind == cx.CYLINDER:
+        return X.axis[None, :]
+    if X.kind in (cx.BOX, cx.MESH):
+        return X.facets_edges()[0]
+    return np.zeros((0, 3))
+
+
+def cylinder_cap_parallel_to_flat_face(A, B):
+    """penetrating pair in which a cylinder cap is parallel (1e-6 rad) to a flat face of the other geom
+    (findings/C15-epa-unconverged-cylinder-cap-on-flat-face.md)"""
+    for X, Y in ((A, B), (B, A)):
+        if X.kind == cx.CYLINDER:
+            N = flat_normals(Y)
+            if len(N) and float(np.abs(N @ X.axis).max()) > 1 - 5e-13:
+                return True
+    return False
+
+
 def check_pose(P, S, obs, distmax, witness, final=True):
     """returns (regime, list of (signature, detail)) - violations are returned, not recorded, so that the caller can re-run the pose
     with a larger iteration limit first"""
@@ -170,6 +189,9 @@ def check_pose(P, S, obs, distmax, witness, final=True):
     P.note_max("ref_bracket_width_rel", (hi - lo) / size if ref["separated"] or ref["exact"] else 0.0)
     # mechanism class of findings/C15-epa-from-touching-simplex.md: the true distance of the (margin-inflated, for contacts) shapes is
     # within ccd_tolerance of zero, where mjc_ccd "assumes touching" and starts EPA from a boundary simplex
+    if not mech and not ref["separated"] and cylinder_cap_parallel_to_flat_face(A, B):
+        mech = "ccd-cylinder-cap-parallel-to-flat-face:"
+        P.count("poses_ccd-cylinder-cap-parallel-to-flat-face")
     band = 2 * ccd_tol
     if not mech and ((lo >= -band and hi <= band) or (mg > 0 and lo >= mg - band and (hi if regime != "pen-bound" else lo) <= mg + band)):
         mech = "ccd-touching-within-tolerance:"
